@@ -68,8 +68,15 @@ class RmCmd:
                     elif type == 'trashed_file':
                         original_location, info_file = arg
                         if cmd.matches(original_location):
-                            trashcan.delete_trash_info_and_backup_copy(
-                                info_file)
+                            try:
+                                trashcan.delete_trash_info_and_backup_copy(
+                                    info_file)
+                            except (IOError, OSError) as e:
+                                # one file that cannot be removed must not
+                                # stop the removal of the other matches
+                                self.report_error(
+                                    'cannot remove {}: {}'.format(info_file,
+                                                                  e))
 
     def unable_to_parse_path(self, trashinfo):
         self.report_error('{}: unable to parse \'Path\''.format(trashinfo))
